@@ -3,7 +3,7 @@ Model/Group.v (group3d_axis0 / group3d_axis1 / group3d_axis01)."""
 import numpy as np
 from harness import grouplib as gl
 from harness.core import exc_kind
-from harness.grouplib import COQ_HEADER, COQ_RUNNER, COQ_TYPES, SHARD
+from harness.grouplib import COQ_HEADER, COQ_RUNNER, COQ_TYPES, SHARD, COQ_STREAMS
 
 PROP = 'C12'
 PROPS_FILE = 'Props/C12.v'
@@ -15,9 +15,18 @@ RULE = ('real compute_features_3d / BycycleGroup.fit for every shape (n0, n1) in
         'return_samples=False for about 40 % of the axis=(0,1) cases; C-ordered / Fortran-ordered / transposed-view arrays, '
         'n_jobs in {1, 2, 3, 4}, perturbed completion orders (observed and logged); every returned table matched against candidates '
         'computed directly (compute_features for axis=(0,1); compute_features_2d(axis=None) of every row / column slice for axis '
-        '0 / 1); placement matrix compared with the model, evaluated on the observed completion order; non-trivial = n0*n1 >= 2')
+        '0 / 1); placement matrix compared with the model, evaluated on the observed completion order; option dictionaries '
+        '(and their nested dictionaries) are passed with a shuffled insertion order; through the object, about 60 % of the '
+        'cases first fit the SAME BycycleGroup on 1-2 decoy arrays of another shape (more / fewer rows, another n1, a 2-D '
+        'array, any axis) with other signals, and after the judged fit len(bg), bg.models, bg[i][j], iteration and '
+        'df_features must have exactly the judged array\'s first two dimensions, every model holding the table (by value) '
+        'and the signal of its own position; the history is evaluated by the model of the object (second Coq stream); '
+        'non-trivial = n0*n1 >= 2')
 EXHAUSTIVE = {'quick': False, 'thorough': True}
-ASSUMPTIONS = ['reference tables for axis 0 / 1 are produced by compute_features_2d(axis=None) itself (placement, not content, is checked here)']
+ASSUMPTIONS = ['the statement about BycycleGroup.fit is applied to every call of fit, also on an object that was fitted before on '
+               'arrays of another shape (the property does not restrict it to fresh objects); position-wise access is read as '
+               'bg.models, bg[i] (bg[i][j]), len(bg) and iteration, compared by value',
+               'reference tables for axis 0 / 1 are produced by compute_features_2d(axis=None) itself (placement, not content, is checked here)']
 TRUST = ['Pool.imap is modelled as a reorder buffer keyed by submission index']
 AXV = {0: 0, 1: 1, 2: (0, 1)}
 
@@ -41,7 +50,9 @@ def _one(rng, n0, n1, ax, mode, via):
     rs_key = [(rng.random() < 0.5 if rng.random() < 0.25 else None) for _ in range(n_entries)]
     if via == 'group':
         rs_key = [None] * n_entries
+    history = gl.gen_decoys(rng, (n0, n1)) if via == 'group' and rng.random() < 0.6 else []
     return {'kind': 'g3d/ax%d/%s' % (ax, mode), 'n0': n0, 'n1': n1, 'ax': ax, 'kwmode': mode, 'kw': kw,
+            'history': history, 'kseed': rng.randrange(10 ** 6),
             'shared': rng.randrange(len(gl.KW_POOL)), 'rs_key': rs_key,
             'sig_ids': rng.sample(range(40), n0 * n1), 'n_jobs': rng.choice([1, 2, 3, 4]),
             'schedule': rng.choice(['reverse', 'first_slow', 'zigzag', 'none']), 'via': via,
@@ -64,6 +75,10 @@ def cases(rng, tier):
                         if c:
                             out.append(c)
     return out
+
+
+def stream_of(c):
+    return 'object' if c.get('via') == 'group' and _mode(c) != 'list' else 'func'
 
 
 def _sid(ids):
@@ -93,8 +108,10 @@ def run_impl(c):
         c = dict(c, via='func')
     rs_key = c.get('rs_key') or []
 
+    krng = gl.key_rng(c)
+
     def opt(pos, a):
-        return gl.option_set(a, rs_key[pos] if pos < len(rs_key) else None)
+        return gl.option_set(a, rs_key[pos] if pos < len(rs_key) else None, krng)
     if mode == 'none':
         kwobj = None
     elif mode == 'dict':
@@ -110,9 +127,10 @@ def run_impl(c):
         tasks = [sigs[0, j] for j in range(n1)]
     else:
         tasks = [sigs[i, j] for i in range(n0) for j in range(n1)]
-    orig = gl.install_delays(tasks, c['schedule'])
     out = {}
     err = None
+    bg = None
+    orig = None
     try:
         with contextlib.redirect_stdout(io.StringIO()):
             if c['via'] == 'group':
@@ -122,19 +140,20 @@ def run_impl(c):
                 else:
                     kw = gl.KW_POOL[c['shared']]
                     bg = BycycleGroup(center_extrema=kw['center_extrema'], burst_method=kw.get('burst_method', 'cycles'),
-                                      thresholds=dict(kw['threshold_kwargs']), find_extrema_kwargs=kw.get('find_extrema_kwargs'),
-                                      return_samples=rs)
+                                      thresholds=gl.shuffled(krng, kw['threshold_kwargs']),
+                                      find_extrema_kwargs=kw.get('find_extrema_kwargs'), return_samples=rs)
+                gl.run_decoys(bg, c.get('history'))           # earlier fits of the SAME object on arrays of another shape
+            orig = gl.install_delays(tasks, c['schedule'])
+            if c['via'] == 'group':
                 bg.fit(sigs, gl.FS, gl.FR, axis=AXV[ax], n_jobs=c['n_jobs'])
                 dfs = bg.df_features
-                out['models_ok'] = bool(all(bg.models[i][j].df_features is dfs[i][j] and np.array_equal(bg.models[i][j].sig, sigs[i, j])
-                                            for i in range(n0) for j in range(n1)))
             else:
                 dfs = compute_features_3d(sigs, gl.FS, gl.FR, compute_features_kwargs=kwobj, axis=AXV[ax], n_jobs=c['n_jobs'],
                                           return_samples=rs)
     except Exception as e:
         err = {'err': exc_kind(e), 'msg': str(e)[:200]}
     finally:
-        out['completion'] = gl.uninstall(orig, c['schedule'])
+        out['completion'] = gl.uninstall(orig, c['schedule']) if orig is not None or gl._LOG[0] is not None else None
     if err is not None:
         out.update(err)
         return out
@@ -182,6 +201,8 @@ def run_impl(c):
                 row.append(gl.match(df, cands, tuple(want[i][j])) if hasattr(df, 'columns') else [gl.MISSING] * 3)
             placement.append(row)
     out['placement'] = placement
+    if bg is not None:
+        out['object'] = gl.observe_object(bg, sigs, cands, _want(c))
     return out
 
 
@@ -215,8 +236,11 @@ def oracle(c, o):
                         return ('entry [%d][%d] is a table, but the flattened-epoch analysis of that slice alone (compute_features_2d, '
                                 'axis=None, same options) raised %s (%s)' % (i, j, kind, msg))
                 return 'entry [%d][%d] holds (options, slice/signal, epoch) = %s, expected %s' % (i, j, o['placement'][i][j], want[i][j])
-    if o.get('models_ok') is False:
-        return 'BycycleGroup.models do not mirror df_features / sigs position by position'
+    if 'object' in o:
+        p = gl.object_problem(o['object'], (c['n0'], c['n1']), want)
+        if p:
+            return 'BycycleGroup.fit%s: %s' % (' after %d earlier fit(s) of the same object on arrays of another shape'
+                                                % len(c['history']) if c.get('history') else '', p)
     return None
 
 
@@ -225,7 +249,8 @@ def nontrivial(c, o):
 
 
 def kind_of(c, o):
-    return 'g3d/ax%d/%s%s/%dx%d' % (c['ax'], _mode(c), '-object' if c['via'] == 'group' else '', c['n0'], c['n1'])
+    return 'g3d/ax%d/%s%s/%dx%d%s' % (c['ax'], _mode(c), '-object' if c['via'] == 'group' else '', c['n0'], c['n1'],
+                                      '/refit%d' % len(c['history']) if c.get('history') else '')
 
 
 def extra_evidence():
@@ -241,4 +266,9 @@ def coq_case(c, o):
     ntasks = {0: c['n0'], 1: c['n1'], 2: c['n0'] * c['n1']}[c['ax']]
     inp = '(G3 %d%%nat %s %s %d%%nat %d%%nat)' % (c['ax'], gl.nat_list(gl.sigma_for(c['schedule'], ntasks, o.get('completion'))),
                                                   gl.kw_term(mode, c['kw']), c['n0'], c['n1'])
+    if stream_of(c) == 'object':
+        if 'object' not in o:
+            return None
+        hist = [gl.decoy_term(d) for d in c.get('history') or []] + [inp]
+        return gl.coqio.lst(hist), '(%s, %s)' % (gl.coq_triples(o['placement']), gl.coq_models(o['object']['models']))
     return inp, gl.coq_triples(o['placement'])
